@@ -181,6 +181,9 @@ def make_basis(mesh, kind, bs):
         return skfem.CellBasis(mesh, elem, elements=None if el is None else np.array(el, dtype=np.int64), **kw)
     fa = bs.get('facets')
     fa = None if fa is None else np.array(fa, dtype=np.int64)
+    if fa is not None and bs.get('ori') is not None:
+        from skfem.generic_utils import OrientedBoundary
+        fa = OrientedBoundary(fa, np.array(bs['ori'], dtype=np.int64))
     if bs['type'] == 'facet':
         return skfem.FacetBasis(mesh, elem, facets=fa, side=bs.get('side', 0), **kw)
     if bs['type'] == 'ifacet':
@@ -259,7 +262,7 @@ class TooLarge(Exception):
     """a scaled value does not fit the 32-bit integers of TLC: the scenario is skipped (counted), never judged"""
 
 
-def to_ints(a, scale, bound=2 ** 26):
+def to_ints(a, scale, bound=2 ** 24):
     """exact integers a * scale (nested lists); None if some entry is not integral (the caller logs the
     clause-visible flag `exact = 0`); raises TooLarge if an entry is too large for TLC"""
     a = np.asarray(a, dtype=np.float64) * scale
@@ -271,6 +274,20 @@ def to_ints(a, scale, bound=2 ** 26):
     if not np.array_equal(a, r):
         return None
     return r.astype(np.int64).tolist()
+
+
+def guard_sum(values, factor=1, bound=2 ** 30):
+    """TLC adds these integers up (32 bit): skip the scenario when the sum of magnitudes could overflow"""
+    tot = 0
+    stack = [values]
+    while stack:
+        v = stack.pop()
+        if isinstance(v, (list, tuple)):
+            stack.extend(v)
+        else:
+            tot += abs(int(v))
+    if tot * factor >= bound:
+        raise TooLarge()
 
 
 def basis_pi(basis, acc, maxpow=8):
@@ -488,3 +505,63 @@ def frac_dot(b, v):
         s += f
         m += abs(f)
     return s, m
+
+
+# ------------------------------------------------------------------------------------------ law tier: group scale
+# The tolerance of a law is relative to the magnitude of the sums that were formed.  Individual components of a
+# mapped basis function can be pure round-off (e.g. the y-component of a Piola-mapped function attached to a
+# horizontal facet), so the magnitude is built from leaf magnitudes taken over ALL components of the leaf's field
+# attribute.  This is pi choosing the unit of a comparison group (DESIGN 2.4): it contains no expected value.
+
+def _absmax(a):
+    a = np.abs(np.asarray(a, dtype=np.float64))
+    return a.reshape((-1,) + a.shape[-2:]).max(axis=0) if a.ndim > 2 else a
+
+
+def leaf_magnitudes(basis, coef, attrs):
+    """(f, attr) -> (nel, nq) array  sum_i |coef_i| max_components |phi_i.attr|"""
+    out = {}
+    ed = np.asarray(basis.element_dofs)
+    coef = np.abs(np.asarray(coef, dtype=np.float64))
+    for i in range(basis.Nbfun):
+        w = coef[ed[i]][:, None]
+        for f, fld in enumerate(basis.basis[i]):
+            for attr in attrs:
+                a = _get(fld, attr)
+                if a is None:
+                    continue
+                out[(f, attr)] = out.get((f, attr), 0.0) + w * _absmax(a)
+    return out
+
+
+def field_magnitudes(fields, attrs):
+    if not isinstance(fields, (tuple, list)):
+        fields = (fields,)
+    out = {}
+    for f, fld in enumerate(fields):
+        for attr in attrs:
+            a = _get(fld, attr)
+            if a is not None:
+                out[(f, attr)] = _absmax(a)
+    return out
+
+
+def ev_abs(t, Um, Vm, Fm, prm, accs):
+    """the term with every leaf replaced by its magnitude and every sum by the sum of magnitudes"""
+    op = t[0]
+    if op == 'u':
+        return Um[accs['u'][t[1] - 1][:2]]
+    if op == 'v':
+        return Vm[accs['v'][t[1] - 1][:2]]
+    if op == 'f':
+        return Fm[t[1]][accs['f'][t[1]][t[2] - 1][:2]]
+    if op == 'p':
+        return abs(float(prm[t[1]]))
+    if op == 'k':
+        return abs(float(t[1]))
+    a, b = ev_abs(t[1], Um, Vm, Fm, prm, accs), ev_abs(t[2], Um, Vm, Fm, prm, accs)
+    return a * b if op == '*' else a + b
+
+
+def term_magnitude(t, Um, Vm, Fm, prm, accs, dx):
+    return Fraction(float(np.sum(ev_abs(t, Um, Vm, Fm, prm, accs) * np.asarray(dx))))
